@@ -48,6 +48,8 @@ mutual
     | .paren e => s "(" ++ printExpr e ++ s ")"
     | .arr es => s "[" ++ join (s ", ") (printExprs es) ++ s "]"
     | .map els => s "{" ++ join (s ", ") (printMapElems els) ++ s "}"
+    -- `SelectorExpr.String()`: an *IntLit operand is parenthesised (`1.a` would scan as the float `1.`).
+    | .sel (.int _ lit) n => s "(" ++ lit ++ s ")." ++ n
     | .sel e n => printExpr e ++ s "." ++ n
     | .idx e i => printExpr e ++ s "[" ++ printOptExpr i ++ s "]"
     | .slice e lo hi => printExpr e ++ s "[" ++ printOptExpr lo ++ s ":" ++ printOptExpr hi ++ s "]"
